@@ -19,7 +19,7 @@ import pydra.engine.state as ST
 import pydra.engine.workflow as WF
 T.assert_repo(ST, WF)
 '''
-TWO = {"W2", "W5", "W5kw", "W10", "W11"}
+TWO = {"W2", "W5", "W5kw", "W10", "W11", "W13"}
 
 
 def build(tier, seed, exclude):
@@ -31,6 +31,8 @@ def build(tier, seed, exclude):
     m = 2 if quick else 3
     for shape in SHAPES:
         if "C03-shared-origin-multiplied" in exclude and shape in ("W3",):
+            continue
+        if "C03-merged-upstream-refanin-crash" in exclude and shape in ("W13",):
             continue
         if shape in TWO:
             g.cond(f"h_{shape}", "nx: int, ny: int, dup: bool", [f"0 <= nx <= {m} and 0 <= ny <= {m}"], f"""
@@ -46,6 +48,10 @@ def build(tier, seed, exclude):
         err = WP.c03("W1", T.real(nx), 0, False)
         return False
     """, timeout=120, kind="twin")
+    g.witness("w_refanin", """
+        err = WP.c03("W13", 2, 2, False)
+        return T.fail(err) if err else True
+    """)
     g.witness("w_diamond", """
         err = WP.c03("W3", 3, 0, False)
         return T.fail(err) if err else True
